@@ -33,6 +33,27 @@ def rpo(fn):
     return list(reversed(order))
 
 
+def loop_blocks(fn):
+    """non-cleanup blocks that lie on a CFG cycle"""
+    out = set()
+    n = len(fn.blocks)
+    reach = {}
+    for b in range(n):
+        if fn.is_cleanup(b):
+            continue
+        seen = set()
+        work = list(fn.succs(b))
+        while work:
+            x = work.pop()
+            if x in seen or fn.is_cleanup(x):
+                continue
+            seen.add(x)
+            work.extend(fn.succs(x))
+        if b in seen:
+            out.add(b)
+    return out
+
+
 def u32_arg(fn, defs, o, prog):
     """describe one distribution argument of read_u32: c, u(n), c+u(n)"""
     k = op_const_int(o)
@@ -170,6 +191,7 @@ def reads_of(prog, fn, depth=0):
     cache = {}
     events = []
     order = rpo(fn)
+    in_loop = loop_blocks(fn)
     for b in order:
         if fn.is_cleanup(b):
             continue
@@ -182,7 +204,8 @@ def reads_of(prog, fn, depth=0):
                     if sub:
                         cond = controlling(fn, defs, doms, b, cache)
                         for e in sub:
-                            events.append({"spec": "each:" + e["spec"], "field": e["field"], "cond": cond + e["cond"]})
+                            sp = e["spec"] if e["spec"].startswith("each:") else "each:" + e["spec"]
+                            events.append({"spec": sp, "field": e["field"], "cond": cond + e["cond"]})
         t = fn.term(b)
         if t[0] != "call":
             continue
@@ -230,6 +253,11 @@ def reads_of(prog, fn, depth=0):
             spec = "Bundle(%s)" % name.split(" as ")[0].lstrip("<").split("::")[-1]
         if spec is None:
             continue
+        if b in in_loop and not spec.startswith("each:"):
+            # a read repeated by a loop is the same layout as a read repeated by an iterator closure
+            spec = "each:" + spec
+        while spec.startswith("each:each:"):
+            spec = spec[5:]     # nesting depth of the repetition is not part of the layout
         events.append({"spec": spec, "field": field_of(fn, defs, t), "cond": controlling(fn, defs, doms, b, cache)})
     return events
 
